@@ -1,51 +1,154 @@
 ------------------------------- MODULE RingImpl -------------------------------
 (***************************************************************************)
-(* L2 -- geometry/ring.go, poly.go, line.go, rect.go, point.go transcribed.  *)
-(* Rings carry the attributes processPoints computed (SeriesImpl!PP).       *)
-(* Every `return` of a case analysis is tagged with a decision site named   *)
-(* after its line in ring.go at the pinned commit.                          *)
+(* L2 -- geometry/ring.go transcribed.  Every `return` of a case analysis   *)
+(* is tagged with a decision site named after its line in ring.go at the    *)
+(* pinned commit.                                                           *)
+(*                                                                          *)
+(* A series operand is a tagged tuple (the Go interface geometry.Series):   *)
+(*    <<1, pts>>    closed baseSeries (a ring)                               *)
+(*    <<2, rect4>>  a geometry.Rect used as a ring (rect.go)                 *)
+(*    <<3, pts>>    open baseSeries (a Line used through the Ring interface) *)
 (***************************************************************************)
 EXTENDS KernelImpl, SeriesImpl
 
-\* a ring operand is either a point sequence (closed baseSeries) or a Rect
-\* (geometry.Rect implements Ring), written as the one-element sequence
-\* << <<minx,miny,maxx,maxy>> >> so that the two cannot be confused
-IsRectRing(r) == Len(r) = 1 /\ Len(r[1]) = 4
-RectRing(mn, mx) == << <<X(mn), Y(mn), X(mx), Y(mx)>> >>
-RectPts(r) == LET q == r[1] IN <<<<q[1],q[2]>>, <<q[3],q[2]>>, <<q[3],q[4]>>, <<q[1],q[4]>>, <<q[1],q[2]>>>>   \* rect.go:43-56 PointAt
-RPts(r) == IF IsRectRing(r) THEN RectPts(r) ELSE r
-RRect(r) == IF IsRectRing(r) THEN r[1] ELSE PP(r, TRUE).rect
-RConvex(r) == IF IsRectRing(r) THEN TRUE ELSE PP(r, TRUE).convex
-RClockwise(r) == IF IsRectRing(r) THEN FALSE ELSE PP(r, TRUE).clockwise      \* rect.go:22
-REmpty(r) == IF IsRectRing(r) THEN FALSE ELSE EmptyL2(r, TRUE)
-RNumPoints(r) == IF IsRectRing(r) THEN 5 ELSE Len(r)
-RNumSegs(r) == IF IsRectRing(r) THEN 4 ELSE NumSegmentsL2(r, TRUE)
-RSegAt(r, i) == SegmentAtL2(RPts(r), i)                                      \* 1-based
+\* operands carry the attributes computed once at construction (makeSeries / processPoints):
+\*   <<tag, points, rect, convex, clockwise, number of segments, empty>>
+RectPts(q) == <<<<q[1],q[2]>>, <<q[3],q[2]>>, <<q[3],q[4]>>, <<q[1],q[4]>>, <<q[1],q[2]>>>>   \* rect.go:43-56 PointAt
+RingOp(pts) == LET pp == PP(pts, TRUE) IN <<1, pts, pp.rect, pp.convex, pp.clockwise, NumSegmentsL2(pts, TRUE), EmptyL2(pts, TRUE)>>
+OpenOp(pts) == LET pp == PP(pts, FALSE) IN <<3, pts, pp.rect, pp.convex, pp.clockwise, NumSegmentsL2(pts, FALSE), EmptyL2(pts, FALSE)>>
+RectOp(r4) == <<2, RectPts(r4), r4, TRUE, FALSE, 4, FALSE>>                      \* rect.go:22,109,95
+IsRectOp(o) == o[1] = 2
+Closed(o) == o[1] # 3
+SPts(o) == o[2]
+SRect(o) == o[3]
+SConvex(o) == o[4]
+SClockwise(o) == o[5]
+SEmpty(o) == o[7]
+SNumPoints(o) == Len(o[2])
+SNumSegs(o) == o[6]
+SSegAt(o, i) == SegmentAtL2(o[2], i)                                             \* 1-based
+SPointAt(o, i) == o[2][i]
+Area4(r) == (r[3]-r[1]) * (r[4]-r[2])
 
 \* ringContainsPoint (ring.go:25-86): strip search, parity toggle, early exit on
 \* the first "on" segment in search order.  `hit` does not depend on the search
-\* order; `idx` (1-based here, 0 = none) is the first on-segment in index order
-\* (brute-force order; indexed orders may report another on-segment).
+\* order; `idx` (1-based here, 0 = none) is the on-segment the search met first:
+\* the lowest index without an index, possibly another one with an index, so the
+\* callers below take idx as a parameter ranging over OnIdxSet.
 RECURSIVE RCPscan(_,_,_,_,_)
-RCPscan(r, p, allow, i, in) ==
-   IF i > RNumSegs(r) THEN [hit |-> in, idx |-> 0]
-   ELSE LET s == RSegAt(r, i) IN
-        IF ~(Min(Y(s[1]),Y(s[2])) <= Y(p) /\ Y(p) <= Max(Y(s[1]),Y(s[2]))) THEN RCPscan(r, p, allow, i+1, in)
+RCPscan(o, p, allow, i, in) ==
+   IF i > SNumSegs(o) THEN [hit |-> in, idx |-> 0]
+   ELSE LET s == SSegAt(o, i) IN
+        IF ~(Min(Y(s[1]),Y(s[2])) <= Y(p) /\ Y(p) <= Max(Y(s[1]),Y(s[2]))) THEN RCPscan(o, p, allow, i+1, in)
         ELSE LET rc == RaycastL2(s[1], s[2], p) IN
              IF rc = "on" THEN [hit |-> allow, idx |-> i]
-             ELSE RCPscan(r, p, allow, i+1, IF rc = "in" THEN ~in ELSE in)
-RingContainsPointL2(r, p, allow) ==
-   IF ~PtInRect(p, RRect(r)) THEN [hit |-> FALSE, idx |-> 0]                  \* ring.go:26
-   ELSE RCPscan(r, p, allow, 1, FALSE)
-\* the set of on-segments (any of them may be the idx an indexed search reports)
-OnIdxSet(r, p) == {i \in 1..RNumSegs(r) : RaycastL2(RSegAt(r,i)[1], RSegAt(r,i)[2], p) = "on"}
+             ELSE RCPscan(o, p, allow, i+1, IF rc = "in" THEN ~in ELSE in)
+RingContainsPointL2(o, p, allow) ==
+   IF ~PtInRect(p, SRect(o)) THEN [hit |-> FALSE, idx |-> 0]                  \* ring.go:26
+   ELSE RCPscan(o, p, allow, 1, FALSE)
+OnIdxSet(o, p) == IF ~PtInRect(p, SRect(o)) THEN {}
+                  ELSE {i \in 1..SNumSegs(o) : RaycastL2(SSegAt(o,i)[1], SSegAt(o,i)[2], p) = "on"}
+IdxChoices(o, p) == IF OnIdxSet(o, p) = {} THEN {0} ELSE OnIdxSet(o, p)
 
-\* Poly.ContainsPoint (poly.go:93-108)
-PolyContainsPointL2(ext, holes, p) ==
-   /\ RingContainsPointL2(ext, p, TRUE).hit
-   /\ \A h \in 1..Len(holes) : ~RingContainsPointL2(holes[h], p, FALSE).hit
-\* Line.ContainsPoint (line.go:33-46)
-LineContainsPointL2(l, p) == \E i \in 1..NumSegmentsL2(l, FALSE) :
-                                RaycastL2(SegmentAtL2(l,i)[1], SegmentAtL2(l,i)[2], p) = "on"
-RectContainsPointL2(mn, mx, p) == X(p) >= X(mn) /\ X(p) <= X(mx) /\ Y(p) >= Y(mn) /\ Y(p) <= Y(mx)  \* rect.go:113
+\* candidates of ring.Search(seg.Rect(), ...)
+SegsMeeting(o, a, b) == {i \in 1..SNumSegs(o) : RectMeets(SegRect(SSegAt(o,i)[1], SSegAt(o,i)[2]), SegRect(a, b))}
+
+\* ringContainsSegment (ring.go:99-243) with the on-edge indexes ia, ib the two
+\* point searches reported: <<answer, site>>
+RCSat(o, a, b, allow, ia, ib) ==
+  LET rc == SRect(o) IN
+  IF ~PtInRect(a, rc) \/ ~PtInRect(b, rc) THEN <<FALSE, "ring.go:101">>
+  ELSE LET ra == RingContainsPointL2(o, a, allow) IN
+  IF ~ra.hit THEN <<FALSE, "ring.go:108">>
+  ELSE IF a = b THEN <<TRUE, "ring.go:111">>
+  ELSE LET rb == RingContainsPointL2(o, b, allow) IN
+  IF ~rb.hit THEN <<FALSE, "ring.go:116">>
+  ELSE IF SConvex(o) THEN <<TRUE, "ring.go:120">>
+  ELSE LET cand == SegsMeeting(o, a, b)
+           Hit(i) == SegIntersectsL2(a, b, SSegAt(o,i)[1], SSegAt(o,i)[2])
+           OnA(i) == RaycastL2(SSegAt(o,i)[1], SSegAt(o,i)[2], a) = "on"
+           OnB(i) == RaycastL2(SSegAt(o,i)[1], SSegAt(o,i)[2], b) = "on"
+       IN
+  IF allow THEN
+    IF ia # 0 THEN
+      IF ib # 0 THEN
+        IF ib = ia THEN <<TRUE, "ring.go:135">>
+        ELSE LET sa == SSegAt(o, ia) sb == SSegAt(o, ib) IN
+          IF sa[1] = a \/ sa[2] = a \/ sb[1] = a \/ sb[2] = a \/ sa[1] = b \/ sa[2] = b \/ sb[1] = b \/ sb[2] = b
+          THEN <<TRUE, "ring.go:151">>
+          ELSE LET s1 == IF ib < ia THEN sb ELSE sa
+                   s2 == IF ib < ia THEN sa ELSE sb
+                   pts == <<s1[1], s1[2], s2[1], s2[2], s1[1]>>
+                   Wd(i) == (X(pts[i+1])-X(pts[i]))*(Y(pts[i+1])+Y(pts[i]))
+                   cw == (Wd(1)+Wd(2)+Wd(3)+Wd(4)) > 0
+               IN IF cw # SClockwise(o) THEN <<FALSE, "ring.go:169">>
+                  ELSE <<~(\E i \in cand : Hit(i) /\ ~OnA(i) /\ ~OnB(i)), "ring.go:184">>
+      ELSE <<~(\E i \in cand : Hit(i) /\ ~OnA(i)), "ring.go:199">>
+    ELSE IF ib # 0 THEN <<~(\E i \in cand : Hit(i) /\ ~OnB(i)), "ring.go:214">>
+    ELSE <<~(\E i \in cand : Hit(i) /\ RaycastL2(a, b, SSegAt(o,i)[1]) # "on" /\ RaycastL2(a, b, SSegAt(o,i)[2]) # "on"), "ring.go:227">>
+  ELSE <<~(\E i \in cand : Hit(i)), "ring.go:242">>
+\* all outcomes over the admissible on-edge indexes
+RCSset(o, a, b, allow) == {RCSat(o, a, b, allow, ia, ib) : ia \in IdxChoices(o, a), ib \in IdxChoices(o, b)}
+\* brute-force order (lowest on-index)
+RingContainsSegmentL2(o, a, b, allow) ==
+   RCSat(o, a, b, allow, RingContainsPointL2(o, a, allow).idx, RingContainsPointL2(o, b, allow).idx)
+
+\* ringIntersectsSegment (ring.go:246-290); the count does not depend on the search order
+RingIntersectsSegmentL2(o, a, b, allow) ==
+  IF ~RectMeets(SegRect(a, b), SRect(o)) THEN FALSE                               \* ring.go:247
+  ELSE IF RingContainsPointL2(o, a, allow).hit THEN TRUE                          \* ring.go:251
+  ELSE IF RingContainsPointL2(o, b, allow).hit THEN TRUE                          \* ring.go:254
+  ELSE LET hits == {i \in SegsMeeting(o, a, b) : SegIntersectsL2(a, b, SSegAt(o,i)[1], SSegAt(o,i)[2])} IN
+       IF allow THEN Cardinality(hits) >= 2
+       ELSE LET nc == {i \in hits : ~(CollinearPointL2(a, b, SSegAt(o,i)[1]) /\ CollinearPointL2(a, b, SSegAt(o,i)[2]))}
+                tA == {i \in nc : a = SSegAt(o,i)[1] \/ a = SSegAt(o,i)[2]}
+                tB == {i \in nc : b = SSegAt(o,i)[1] \/ b = SSegAt(o,i)[2]}
+                \* the first segment touching seg.A and the first one touching seg.B are not counted (a non-collinear
+                \* segment cannot touch both ends), so the final count is independent of the search order
+                cnt == Cardinality(nc) - (IF tA # {} THEN 1 ELSE 0) - (IF tB # {} THEN 1 ELSE 0)
+            IN cnt >= 2
+
+\* ringContainsRing (ring.go:292-331): may(o, other, allow, want) = "some admissible
+\* choice of on-edge indexes makes the call return `want`"
+RECURSIVE RingContainsRingMay(_,_,_,_)
+RingContainsRingMay(o, other, allow, want) ==
+  IF SEmpty(o) \/ SEmpty(other) THEN want = FALSE                                  \* ring.go:293
+  ELSE LET shortcut == SNumPoints(other) >= 16                                      \* ring.go:296-302
+           rest(w) ==
+             IF ~RectInside(SRect(other), SRect(o)) THEN w = FALSE                  \* ring.go:304
+             ELSE IF SConvex(o) THEN
+                w = (\A i \in 1..SNumPoints(other) : RingContainsPointL2(o, SPointAt(other,i), allow).hit)   \* ring.go:309-317
+             ELSE IF w THEN \A i \in 1..SNumSegs(other) :                           \* ring.go:318-329
+                              \E r \in RCSset(o, SSegAt(other,i)[1], SSegAt(other,i)[2], allow) : r[1]
+                  ELSE \E i \in 1..SNumSegs(other) :
+                              \E r \in RCSset(o, SSegAt(other,i)[1], SSegAt(other,i)[2], allow) : ~r[1]
+       IN IF shortcut
+          THEN IF want THEN RingContainsRingMay(o, RectOp(SRect(other)), allow, TRUE) \/ rest(TRUE)
+               ELSE RingContainsRingMay(o, RectOp(SRect(other)), allow, FALSE) /\ rest(FALSE)
+          ELSE rest(want)
+\* deterministic version (brute-force search order)
+RECURSIVE RingContainsRingL2(_,_,_)
+RingContainsRingL2(o, other, allow) ==
+  IF SEmpty(o) \/ SEmpty(other) THEN FALSE
+  ELSE IF SNumPoints(other) >= 16 /\ RingContainsRingL2(o, RectOp(SRect(other)), allow) THEN TRUE
+  ELSE IF ~RectInside(SRect(other), SRect(o)) THEN FALSE
+  ELSE IF SConvex(o) THEN \A i \in 1..SNumPoints(other) : RingContainsPointL2(o, SPointAt(other,i), allow).hit
+  ELSE \A i \in 1..SNumSegs(other) : RingContainsSegmentL2(o, SSegAt(other,i)[1], SSegAt(other,i)[2], allow)[1]
+\* the decision sites of ringContainsSegment reached by a ringContainsRing call (diagnostic)
+RingContainsRingSites(o, other, allow) ==
+  IF SEmpty(o) \/ SEmpty(other) \/ ~RectInside(SRect(other), SRect(o)) \/ SConvex(o) THEN {}
+  ELSE {RingContainsSegmentL2(o, SSegAt(other,i)[1], SSegAt(other,i)[2], allow)[2] : i \in 1..SNumSegs(other)}
+
+RingIntersectsRingL2(o, other, allow) ==                                           \* ring.go:333-354
+  IF SEmpty(o) \/ SEmpty(other) THEN FALSE
+  ELSE IF ~RectMeets(SRect(o), SRect(other)) THEN FALSE
+  ELSE LET swap == Area4(SRect(other)) > Area4(SRect(o))
+           big == IF swap THEN other ELSE o
+           small == IF swap THEN o ELSE other
+       IN \E i \in 1..SNumSegs(small) : RingIntersectsSegmentL2(big, SSegAt(small,i)[1], SSegAt(small,i)[2], allow)
+RingIntersectsLineL2(o, l, allow) ==                                               \* ring.go:361-382 (l = OpenOp(pts))
+  IF SEmpty(o) \/ SEmpty(l) THEN FALSE
+  ELSE IF ~RectMeets(SRect(o), SRect(l)) THEN FALSE
+  ELSE \/ \E i \in 1..SNumPoints(l) : RingContainsPointL2(o, SPointAt(l,i), allow).hit
+       \/ \E i \in 1..SNumSegs(l) : RingIntersectsSegmentL2(o, SSegAt(l,i)[1], SSegAt(l,i)[2], allow)
 =============================================================================
